@@ -40,7 +40,7 @@ REQUIRED = ["pe_total_match_raw", "pe_total_build_raw", "pe_total_credentials_re
             "wallet_verifier_agree_partial", "wallet_verifier_disagree_witness",
             "old_code_max_zero_selects_all", "old_code_min_above_max_returns_partial",
             "fact_array_envelope_skips_no_entry", "array_envelope_positions_preserved", "array_envelope_junk_entry_rejected", "pe_total_parse_array_envelope",
-            "fact_resolve_evaluates_path_nested_first", "path_nested_always_evaluated", "fact_apply_max_counts_taken_members", "fact_regex_timeout_bounded", "fact_fulfill_callers_return_on_error", "fact_consumer_wiring", "fact_match_result_consumers", "fact_apply_max_test_first", "fact_apply_rejects_min_above_max",
+            "fact_resolve_evaluates_path_nested_first", "path_nested_always_evaluated", "fact_apply_max_counts_taken_members", "fact_apply_count_counts_taken_members", "count_takes_exactly_count_members", "fact_regex_timeout_bounded", "fact_fulfill_callers_return_on_error", "fact_consumer_wiring", "fact_match_result_consumers", "fact_apply_max_test_first", "fact_apply_rejects_min_above_max",
             "old_code_panics_array_pattern", "old_code_type_only_filter_matches_any_array",
             "old_code_panics_pick_min_only", "old_code_accepts_shadowed_entry",
             "fact_array_case_guarded", "fact_apply_derefs_guarded", "fact_apply_max_guarded",
@@ -591,6 +591,29 @@ def run(ctx):
                                 if nsel != (min(len(avail), sr["max"]) if "max" in sr else len(avail)):
                                     report("C12:sr-rule-violated:nested-take", f"selected {nsel} of {len(avail)} selectable members for {json.dumps({k: v for k, v in sr.items() if k != 'nested'})}", i)
                                 counts["sr-bounds-checked-nested"] += 1
+                        except Undecided:
+                            counts["oracle-undecided"] += 1
+                if (len(pd["srs"]) == 1 and pd["srs"][0]["nested"] and pd["srs"][0]["rule"] == "pick" and pd["srs"][0].get("count", 0) > 0
+                        and all(n["rule"] == "all" and n["from"] and not n["nested"] for n in pd["srs"][0]["nested"])
+                        and len({d["id"] for d in pd["descs"]}) == len(pd["descs"]) and all(len(d["group"]) == 1 for d in pd["descs"])):
+                    # pick COUNT over nested `all from G_j` requirements (groups of any size): the selection must fulfil exactly
+                    # `count` nested requirements — each taken one completely, nothing of the others
+                    sr = pd["srs"][0]
+                    groups = [n["from"] for n in sr["nested"]]
+                    per_group = {g: [d for d in pd["descs"] if d["group"] == [g]] for g in groups}
+                    if len(set(groups)) == len(groups) and all(per_group[g] for g in groups):
+                        try:
+                            cand = {d["id"]: next((c for c in wallet if satisfies(pd, d, c, retbl)), None) for g in groups for d in per_group[g]}
+                            names = [c["name"] for c in cand.values() if c is not None]
+                            if len(set(names)) == len(names) and not any(c["selEmpty"] for c in cand.values() if c is not None):
+                                mapped = {m[0] for m in maps}
+                                full = [g for g in groups if all(d["id"] in mapped for d in per_group[g])]
+                                part = [g for g in groups if g not in full and any(d["id"] in mapped for d in per_group[g])]
+                                if len(full) != sr["count"] or part:
+                                    report("C12:sr-rule-violated:nested-count", f"selection fulfils {len(full)} nested requirement(s) completely ({len(part)} partially) but the pick requirement asks for exactly count={sr['count']} of {len(groups)} (group sizes {[len(per_group[g]) for g in groups]})", i)
+                                elif len(vcs) != sum(len(per_group[g]) for g in full):
+                                    report("C12:sr-rule-violated:nested-count", f"{len(vcs)} credentials selected for {len(full)} nested requirements with {sum(len(per_group[g]) for g in full)} descriptors", i)
+                                counts["sr-bounds-checked-nested-count"] += 1
                         except Undecided:
                             counts["oracle-undecided"] += 1
                 if len(pd["srs"]) == 1 and not pd["srs"][0]["nested"] and pd["srs"][0]["from"] and len({d["id"] for d in pd["descs"]}) == len(pd["descs"]):
